@@ -1,6 +1,7 @@
 package main
 
 import (
+	"os"
 	"fmt"
 	"go/token"
 	"go/types"
@@ -76,6 +77,21 @@ func (e *Engine) localByName(fr *Frame, st *State, name string, before token.Pos
 func (e *Engine) evalLoopFn(fr *Frame, st *State, f *ssa.Function, li *loopInfo) Value {
 	args := make([]Value, len(f.Params))
 	for i, p := range f.Params {
+		if p.Name() == "rangecount" {
+			// number of completed iterations of a range-over-map loop
+			rg := loopMapRange(li)
+			if os.Getenv("GOVC_DEBUG") != "" {
+				fmt.Fprintf(os.Stderr, "rangecount: loop %d head %s blocks %d rg=%v\n", li.ord, li.head, len(li.blocks), rg)
+			}
+			if rg != nil {
+				n, ok := st.ghost[iterKey(fr, rg)+".n"]
+				if !ok {
+					n = BVConst(0, IntSort)
+				}
+				args[i] = scalar(n)
+				continue
+			}
+		}
 		a, ok := e.localByName(fr, st, p.Name(), blockPos(li.head))
 		if !ok {
 			panic(contractError{fmt.Sprintf("%s: parameter %q does not name a live variable of %s", f.Name(), p.Name(), fnName(fr.fn))})
@@ -99,6 +115,22 @@ func (e *Engine) evalLoopFn(fr *Frame, st *State, f *ssa.Function, li *loopInfo)
 	// spec evaluation is pure; keep only new facts (wf assumptions of reads)
 	st.pc = tmp.pc
 	return vals[0]
+}
+
+// loopMapRange: the Range instruction iterated by the loop's Next, for range-over-map loops.
+func loopMapRange(li *loopInfo) *ssa.Range {
+	for b := range li.blocks {
+		for _, in := range b.Instrs {
+			if nx, ok := in.(*ssa.Next); ok && !nx.IsString {
+				if rg, ok := nx.Iter.(*ssa.Range); ok {
+					if _, isMap := rg.X.Type().Underlying().(*types.Map); isMap {
+						return rg
+					}
+				}
+			}
+		}
+	}
+	return nil
 }
 
 type contractError struct{ msg string }
@@ -416,6 +448,9 @@ func (e *Engine) loopTouchesGhost(li *loopInfo, g string) bool {
 			}
 		}
 		return false
+	}
+	if strings.HasPrefix(g, "iter.") {
+		return true
 	}
 	for b := range li.blocks {
 		for _, in := range b.Instrs {
